@@ -9,7 +9,7 @@ import os, random, shutil, tempfile
 from collections import Counter
 import vlib
 
-THEOREM_FILES = ['C11']
+THEOREM_FILES = ['C11', 'C11b']
 ASSUMPTIONS = ['OS behaviour (exists, open, relative paths against the process working directory, no symbolic links) is a parameter of the model (Model.Fs)',
                'when the same file name exists in two searched directories the property does not say which wins; such cases are compared impl vs model only']
 
